@@ -98,8 +98,61 @@ def specEpochComms (cfg : Cfg) (vals : List Val) (mixes : Nat → ByteArray) (ep
       | .ok m => some m
       | _ => none
 
+/-- the hash functions of the `cpi` / `csi` ops (go/internal/committees/cutoff.go): with `d = sha256 x`,
+0: `d`; 1: zero bytes become 1; 2: a zero byte stays zero only if the next byte (cyclically) is `< 8`;
+3: every byte gets its top bit set -/
+def hashMode (m : Nat) (x : ByteArray) : ByteArray :=
+  let d := Sha256.hash x
+  if m = 0 then d else
+  ⟨(Array.range 32).map fun i =>
+    let b := d.get! i
+    if m = 1 then (if b = 0 then 1 else b)
+    else if m = 2 then (if b = 0 ∧ (d.get! ((i + 1) % 32)).toNat ≥ 8 then 1 else b)
+    else b ||| 0x80⟩
+
+/-- fuel given to the specification's unbounded proposer loop on `cpi` lines: beyond the implementation's
+32 000-candidate cut-off, so that "the implementation gave up, the specification is still searching" shows -/
+def cpiSpecFuel : Nat := 40000
+
+def directLine (op : String) (toks : List String) : String :=
+  match toks with
+  | hm :: rest =>
+    match hm.toNat? with
+    | none => "bad-op"
+    | some m =>
+      if m > 3 then "bad-op" else
+      let (stateToks, seedTok) := if op = "cpi" then (rest.take 12, rest.drop 12) else (rest, [])
+      match parseInput stateToks, (if op = "cpi" then (match seedTok with | [s] => parseHex s | _ => none) else some ByteArray.empty) with
+      | some inp, some seed =>
+        if op = "cpi" ∧ seed.size ≠ 32 then "bad-op" else
+        let cfg := inp.cfg
+        let H := hashMode m
+        let mixes := mixOf inp.salt
+        let epoch := inp.slot / cfg.SLOTS_PER_EPOCH
+        if op = "cpi" then
+          let active := activeIndices inp.vals epoch
+          let mdl := rs (fun c => s!"ok {c}") (computeProposerIndex H cfg inp.vals active seed)
+          let sp := match Spec.compute_proposer_index H cfg inp.vals.toList active.toList seed cpiSpecFuel 0 with
+            | .ok c => s!"ok {c}"
+            | .outOfFuel => "any"      -- still searching after 40 000 candidates: the stated divergence
+            | _ => "err"
+          mdl ++ " | " ++ sp
+        else
+          let active := activeIndices inp.vals (epoch + 1)
+          let mdl := rs (fun a => "ok " ++ listStr a.toList)
+            (computeSyncCommitteeIndices H cfg inp.vals mixes inp.slot (epoch + 1) active loopFuel)
+          let sp := match Spec.get_next_sync_committee_indices H cfg inp.vals.toList mixes inp.slot loopFuel with
+            | .ok l => "ok " ++ listStr l
+            | .outOfFuel => "any"
+            | _ => "err"
+          mdl ++ " | " ++ sp
+      | _, _ => "bad-op"
+  | [] => "bad-op"
+
 def committeesLine (line : String) : String :=
   match tokens line with
+  | "cpi" :: rest => directLine "cpi" rest
+  | "csi" :: rest => directLine "csi" rest
   | op :: rest =>
     match parseInput rest with
     | none => "bad-op"
